@@ -13,6 +13,8 @@ from contracts.C05_multiindex_validate import MultiIndexValidate
 from contracts.C05_polars_components import PolarsRunSchemaComponentChecks
 from contracts.C03_polars_parsers import PolarsAddMissingColumns, PolarsSetDefault
 from contracts.C02_polars_column_collect import PolarsColumnCollect
+from contracts.C10_polars_failure_cases import PolarsCoerceFailureCases  # the mask of a failed coercion has one row per data row (else the report itself raises)
+from contracts.C05_dtype_receivers import CONTRACTS as DTYPE_CHECKS  # exit.only_documented_exceptions of every dtype `check` override
 
 CONTRACTS = [ContainerValidate, SeriesSchemaValidate, ArrayValidate, IndexValidate, ColumnValidateRestoresSchema, RunSchemaComponentChecks,
-             ConfigContext, PolarsSubsample, PandasDropInvalidRows, PolarsDropInvalidRows, PolarsContainerValidate, PolarsColumnValidate, MultiIndexValidate, PolarsRunSchemaComponentChecks, PolarsAddMissingColumns, PolarsSetDefault, PolarsColumnCollect] + list(POLARS_API)
+             ConfigContext, PolarsSubsample, PandasDropInvalidRows, PolarsDropInvalidRows, PolarsContainerValidate, PolarsColumnValidate, MultiIndexValidate, PolarsRunSchemaComponentChecks, PolarsAddMissingColumns, PolarsSetDefault, PolarsColumnCollect, PolarsCoerceFailureCases] + list(POLARS_API) + list(DTYPE_CHECKS)
